@@ -267,6 +267,8 @@ def oracle(case, rec=None):
                         if decode(c1_file)['tstates'] % frame != decode(c2_file)['tstates'] % frame:
                             sig = 'resume:tstates:cmio-saved-inside-halt'
                             detail += ' (frame position already differs one operation after the split)'
+                    if case['machine'] == '48K' and _ay_state_lost_on_48k(s, sub, start, n1, b1_file, case['N']):
+                        sig += ':48k-ay-state'
                     raise Violation(sig, '%s %s %s%s: %s' % (case['machine'], fmt, '-c ' if case['cmio'] else '', '--python' if case['python'] else 'C', detail), sub)
             if a_stop != b_stop:
                 raise Violation('resume:stop-line', 'stdout %r vs %r (split %d)' % (a_stop, b_stop, n1), sub)
@@ -319,16 +321,42 @@ def replay(case):
     oracle(case)
 
 
-def _uses_ay_ports_on_48k(case):
-    code = bytes(case.get('code', ()))
-    return case.get('machine') == '48K' and (b'\x01\xfd\xff' in code or case.get('regs', {}).get('BC', 0) & 0xC002 == 0xC000)
+def _ay_state_lost_on_48k(s, sub, start, n1, b1_file, N):
+    """Classification aid for F51 (used only after a mismatch on a 48K case): True if the first leg ends with AY state
+    in trace.py's tracer (a register selected or written - wherever the program wandered, including ROM and filler
+    code) and the second leg reads the AY register port."""
+    import skoolkit.trace as tr
+    seen = {}
+    orig_init, orig_read = tr.Tracer.__init__, tr.Tracer.read_port
+
+    def init(self, *a, **k):
+        orig_init(self, *a, **k)
+        seen['tracer'] = self
+
+    def read(self, registers, port):
+        if port & 0xC002 == 0xC000:
+            seen['read'] = True
+        return orig_read(self, registers, port)
+    tr.Tracer.__init__, tr.Tracer.read_port = init, read
+    try:
+        run_trace(s, sub, start, n1, 'd1.szx')
+        t = seen.get('tracer')
+        lost = t is not None and bool(t.outfffd or any(t.ay))
+        seen.pop('read', None)
+        run_trace(s, sub, b1_file, N - n1, 'd2.szx')
+        return bool(lost and seen.get('read'))
+    finally:
+        tr.Tracer.__init__, tr.Tracer.read_port = orig_init, orig_read
 
 
 def known_class(sig, case):
     # F51: trace.py emulates the AY register port 0xFFFD on every machine, but a 48K snapshot carries no AY state: a
     # 48K program that selects an AY register and reads it back after the split sees a different value.
-    if sig.startswith('resume:') and isinstance(case, dict) and _uses_ay_ports_on_48k(case):
+    # (decided by what the two legs actually did - see _ay_state_lost_on_48k - not by the shape of the program)
+    if sig.startswith('resume:') and sig.endswith(':48k-ay-state'):
         return 'F51'
+    if sig.startswith('resume:tstates:cmio-saved-inside-halt'):
+        return 'F7'
     # F7: neither snapshot format carries the HALT flag (and from_snapshot does not restore it). With -c the
     # contended simulators put PC+1 on the bus while halted but PC when a HALT is (re-)entered, so a run
     # resumed from a snapshot taken inside a HALT wait next to a contention boundary ends a few T-states off.
